@@ -2343,7 +2343,7 @@ def to_json_str(value: Any,
   def _encode_int_keys(v):
     if isinstance(v, dict):
       return {
-          f'n_:{k}' if isinstance(k, int) else k: _encode_int_keys(v)
+          f'n_:{int(k)}' if isinstance(k, int) else k: _encode_int_keys(v)
           for k, v in v.items()
       }
     elif isinstance(v, list):
